@@ -31,8 +31,9 @@ def _impl(a):
         return "ctor-raise " + C.exc_name(e)
     st, md, tt, fan, sw, cur = a["req"]
     try:
-        c = r.build_command(DeviceState[st], ThermostatMode[md], tt, ThermostatFanLevel[fan], ThermostatSwing[sw],
-                            None if cur is None else DeviceState[cur])
+        c = C.call_in_form(r.build_command, ("state", "mode", "target_temp", "fan_level", "swing", "current_state"),
+                           (DeviceState[st], ThermostatMode[md], tt, ThermostatFanLevel[fan], ThermostatSwing[sw],
+                            None if cur is None else DeviceState[cur]), a.get("form", "positional"))
         return f"ok {c.command} {c.length}"
     except RuntimeError as e:
         # the message must name every supported mode
@@ -62,11 +63,11 @@ BUILD = C.Kind("build_command", impl=_impl, model=lambda a: "irbuild " + _tok(a)
 def _impl_swing(a):
     from aioswitcher.device import ThermostatSwing
     try:
-        r = _remote(a["ir"])
+        r = H.make_remote(a["ir"]) if a.get("form") else _remote(a["ir"])      # with a form: ONE remote object per IR set, asked repeatedly
     except Exception as e:  # noqa
         return "ctor-raise " + C.exc_name(e)
     try:
-        c = r.build_swing_command(ThermostatSwing[a["swing"]])
+        c = r.build_swing_command(swing=ThermostatSwing[a["swing"]]) if a.get("form") == "keyword" else r.build_swing_command(ThermostatSwing[a["swing"]])
         return f"ok {c.command} {c.length}"
     except Exception as e:  # noqa
         return "raise " + C.exc_name(e)
@@ -131,6 +132,13 @@ def streams(ctx):
     ctx.run_cases(BUILD, "requests-on-generated-ir-sets", builds, exhaustive=False, sample_every=max(1, len(builds) // 3))
     ctx.run_cases(SWING, "separate-swing-commands", swings, exhaustive=False, sample_every=max(1, len(swings) // 2))
     ctx.run_cases(CAPS, "capabilities", caps, exhaustive=False, sample_every=max(1, len(caps) // 2))
+    # the same remote OBJECTS asked again with the arguments spelled by keyword (in either order, through partial, mixed): an answer
+    # depends on the values asked for, not on how they were passed or on what this remote was asked before
+    spelled = [dict(b, form=rng.choice(C.CALL_FORMS[1:])) for b in rng.sample(builds, min(len(builds), ctx.n(1500, 20000)))]
+    ctx.run_cases(BUILD, "same-remotes-asked-again-with-arguments-by-keyword", spelled, exhaustive=False, sample_every=max(1, len(spelled) // 3))
+    sw2 = [dict(x, form=rng.choice(["keyword", "positional-shared"])) for x in swings for _ in range(2)]
+    rng.shuffle(sw2)
+    ctx.run_cases(SWING, "swing-commands-asked-repeatedly-of-one-remote-object", sw2, exhaustive=False, sample_every=max(1, len(sw2) // 2))
     # payload length boundaries: texts whose payload is 5, 15, 16, 17, 255, 256, 257, 2000 bytes
     lens = []
     for n in (1, 5, 11, 12, 13, 251, 252, 253, 1000, 1996, 2000):
